@@ -50,13 +50,14 @@ Definition first_mismatch (want : list target) (is : list iobs) : Z :=
 Definition check_http : rd verdict :=
   src <- getstr ;; fs <- getlist (getpair getstr getstr) ;; dbody <- getstr ;; dhdr <- gethmap ;;
   ncalls <- getz ;; obs <- getlist getiobs ;; defaults_same <- getbool ;;
-  hasintent <- getbool ;; want <- getlist gettgt ;;
+  hasintent <- getbool ;; want <- getlist gettgt ;; eager_same <- getbool ;;
   let model := http_calls true fs dbody dhdr (Z.to_nat ncalls) (psc_of src) in
   let vdiff := if same_results model obs then VOk else VDiff 10 [Z.of_nat (length obs)] in
   let vprop := combine_verdicts
     [ if hasintent then prop_ok 1 (matches_intent want obs) [first_mismatch want obs; Z.of_nat (length want)] else VOk;
       prop_ok 2 (stable_all obs) [];
-      prop_ok 3 defaults_same [] ] in
+      prop_ok 3 defaults_same [];
+      prop_ok 7 eager_same [] ] in
   ret (combine_verdicts [vprop; vdiff]).
 
 Definition getjline : rd jline :=
@@ -67,13 +68,14 @@ Definition getjline : rd jline :=
 Definition check_json : rd verdict :=
   ls <- getlist getjline ;; dbody <- getstr ;; dhdr <- gethmap ;;
   ncalls <- getz ;; obs <- getlist getiobs ;; defaults_same <- getbool ;;
-  hasintent <- getbool ;; want <- getlist gettgt ;;
+  hasintent <- getbool ;; want <- getlist gettgt ;; eager_same <- getbool ;;
   let model := json_calls dbody dhdr (Z.to_nat ncalls) ls in
   let vdiff := if same_results model obs then VOk else VDiff 20 [Z.of_nat (length obs)] in
   let vprop := combine_verdicts
     [ if hasintent then prop_ok 4 (matches_intent want obs) [first_mismatch want obs; Z.of_nat (length want)] else VOk;
       prop_ok 5 (stable_all obs) [];
-      prop_ok 6 defaults_same [] ] in
+      prop_ok 6 defaults_same [];
+      prop_ok 8 eager_same [] ] in
   ret (combine_verdicts [vprop; vdiff]).
 
 Definition check : rd verdict :=
